@@ -19,6 +19,8 @@ import (
 	"runtime"
 	"sort"
 	"sync"
+
+	"github.com/FollowTheProcess/spok/simhook"
 )
 
 // ALWAYS is a constant string that is different to the string returned from
@@ -86,15 +88,19 @@ func (c Concurrent) Hash(files []string) (string, error) {
 	// it doesn't block the main goroutine as channel cap is 0
 	go func() {
 		for _, file := range files {
+			simhook.Yield("hash.feed", file)
 			jobs <- file
 		}
+		simhook.Yield("hash.feed.close", "")
 		close(jobs)
 	}()
 
 	// Wait for all the workers to finish in another goroutine so
 	// it doesn't block, and close results channel when done
 	go func(wg *sync.WaitGroup) {
+		simhook.Yield("hash.closer.wait", "")
 		wg.Wait()
+		simhook.Yield("hash.closer.close", "")
 		close(results)
 	}(&wg)
 
@@ -114,6 +120,7 @@ func (c Concurrent) Hash(files []string) (string, error) {
 		hashItem := [][]byte{r.hash, []byte(r.file)}
 		joinedHashItem := []byte(bytes.Join(hashItem, []byte(""))) //nolint: unconvert
 		accumulator = append(accumulator, joinedHashItem)
+		simhook.Yield("hash.collect", r.file)
 	}
 
 	if len(errors) != 0 {
@@ -140,27 +147,37 @@ func (c Concurrent) Hash(files []string) (string, error) {
 // sure all the workers have finished before closing the results channel.
 func worker(results chan<- result, files <-chan string, wg *sync.WaitGroup) {
 	defer wg.Done()
+	simhook.Yield("hash.worker.recv", "")
 	for file := range files {
 		var res result
 		res.file = file
 		f, err := os.Open(file)
+		if simhook.Enabled {
+			f, err = simhook.Open(f, err, file)
+		}
 		if err != nil {
 			res.err = err
 		}
 		info, _ := f.Stat() //nolint: errcheck // The file is already open here so we can ignore the error
 		// Skip directories
 		if info.IsDir() {
+			simhook.Yield("hash.worker.recv", "")
 			continue
 		}
 		hash := sha256.New()
 		_, err = io.Copy(hash, f)
 		f.Close()
+		if simhook.Enabled {
+			err = simhook.ReadErr(err, file)
+		}
 		if err != nil {
 			res.err = err
 		}
 		res.hash = hash.Sum(nil)
 
+		simhook.Yield("hash.worker.send", file)
 		results <- res
+		simhook.Yield("hash.worker.recv", "")
 	}
 }
 
